@@ -132,6 +132,16 @@ def run_case(case, ctx):
             if typed:
                 tx = np.dtype(typed).type(x)
                 d.update(tx if i % 2 else np.array([[tx]]))
+            elif len(xs) % 7 == 3:
+                # one mutable row (an array or a list) kept by the caller and overwritten in place before every update
+                if i == 0:
+                    rowbuf = np.zeros((1, 1)) if len(xs) % 2 else [0.0]
+                    ctx.count("streams_through_one_reused_row")
+                if isinstance(rowbuf, list):
+                    rowbuf[0] = x
+                else:
+                    rowbuf[0, 0] = x
+                d.update(rowbuf)
             else:
                 d.update(x)
         else:
